@@ -523,6 +523,28 @@ def _make_step(idx, is_async):
 _CLASS_COUNT = 0
 
 
+class EagerWaiting(process_states.Waiting):
+    """A WAITING state of an application that finds, while the state is being entered, that what it waits for is there
+    already and resumes at once (custom state classes are installed through Process.get_state_classes(), as
+    WorkChain does for its own Waiting)."""
+
+    def enter(self):
+        super().enter()
+        w = world.cur()
+        pid = self.process.pid
+        serial = w.extra.setdefault('wait_enters', {}).get(pid, 0)
+        w.extra['wait_enters'][pid] = serial + 1
+        plan = w.extra.get('resume_on_enter', {}).get(pid, {})
+        if serial in plan:
+            self.resume(dec(plan[serial]))
+
+
+def _eager_state_classes(cls):
+    classes = dict(super(cls._pv_eager_owner, cls).get_state_classes())
+    classes[process_states.ProcessState.WAITING] = EagerWaiting
+    return classes
+
+
 def make_class(program, base=None):
     """Return the generated Process subclass interpreting ``program`` (cached by content hash)."""
     global _CLASS_COUNT
@@ -539,7 +561,11 @@ def make_class(program, base=None):
         namespace['_spec_class'] = port_model.spec_class_for(program['spec']['sep'])
     for idx, step in enumerate(steps):
         namespace[step_name(idx)] = _make_step(idx, bool(step.get('async')))
+    if program.get('eager_waiting'):
+        namespace['get_state_classes'] = classmethod(_eager_state_classes)
     cls = type(name, (base or (CodecProg if program.get('codec') else ProgBase),), namespace)
+    if program.get('eager_waiting'):
+        cls._pv_eager_owner = cls
     setattr(gen_classes, name, cls)
     _CLASS_COUNT += 1
     return cls
